@@ -216,7 +216,6 @@ func summarize(d *fnDecl, t *bodyTr) (*summary, []bool, []string) {
 		for pi := range d.excReg {
 			if pi < len(t.paramReg) && t.paramReg[pi] >= 0 {
 				allowed[t.paramReg[pi]] = true
-				a.need[t.paramReg[pi]] = true
 				a.strictNo[t.paramReg[pi]] = false
 			}
 		}
@@ -276,7 +275,8 @@ func summarize(d *fnDecl, t *bodyTr) (*summary, []bool, []string) {
 	flags := make([]bool, nregs)
 	for r := 0; r < t.np; r++ {
 		if d.strict {
-			flags[r] = allowed[r]
+			// an exception is recorded (and the flag set) only where the body makes use of it
+			flags[r] = allowed[r] && a.need[r]
 		} else {
 			flags[r] = a.need[r]
 		}
@@ -497,7 +497,7 @@ func bodiesV(decls []*fnDecl) string {
 			}
 			sort.Ints(pis)
 			for _, pi := range pis {
-				if pi < len(d.tr.paramReg) && d.tr.paramReg[pi] >= 0 {
+				if pi < len(d.tr.paramReg) && d.tr.paramReg[pi] >= 0 && d.flags[d.tr.paramReg[pi]] {
 					exc = append(exc, [3]string{d.rel, d.name, fmt.Sprintf("register %d (%s): %s", d.tr.paramReg[pi], d.tr.regNames[d.tr.paramReg[pi]], d.excReg[pi])})
 				}
 			}
